@@ -108,7 +108,7 @@ StepNode(e) ==
                        fields |-> <<"panic">>])
           \cup FailIf(e.post.panic = "none" /\ post # ClearOut(s2), [l |-> l, what |-> "post-state differs from spec (" \o e.ev \o ")",
                                               fields |-> SetToSeq({f \in DOMAIN post : post[f] # ClearOut(s2)[f]})])
-          \cup FailIf(e.post.panic = "none" /\ OutSeq(e.out) # s2.out, [l |-> l, what |-> "outputs differ from spec (" \o e.ev \o ")", fields |-> <<"out">>])
+          \cup FailIf(e.post.panic = "none" /\ OutSeq(e.out) # (IF e.nosched THEN SelectSeq(s2.out, LAMBDA x : x.t # "sched") ELSE s2.out), [l |-> l, what |-> "outputs differ from spec (" \o e.ev \o ")", fields |-> <<"out">>])
      /\ viol' = viol
           \cup SignsViol(n, sgn[n], rel, l)
           \cup FailIf(e.post.panic # "none", [l |-> l, inv |-> "NoPanic", class |-> e.post.panic])
